@@ -120,6 +120,9 @@ func def(m map[string]string, k, d string) string {
 	return d
 }
 
+// afterFirstError is set while the lexer harness keeps calling Next after the first error of a case.
+var afterFirstError bool
+
 func parseLopts(m map[string]string) *mcap.LexerOptions {
 	b := func(k string) bool { return m[k] == "1" }
 	lo := &mcap.LexerOptions{
@@ -169,7 +172,11 @@ func parseLopts(m map[string]string) *mcap.LexerOptions {
 			if perr != nil {
 				ps = "err:" + classify(perr)
 			}
-			fmt.Fprintf(out, "att %d %d %s %s %d %s %s %s %s\n", ar.LogTime, ar.CreateTime, hx([]byte(ar.Name)), hx([]byte(ar.MediaType)),
+			kind := "att"
+			if afterFirstError {
+				kind = "after att" // informational, like the other lines printed after the first error
+			}
+			fmt.Fprintf(out, "%s %d %d %s %s %d %s %s %s %s\n", kind, ar.LogTime, ar.CreateTime, hx([]byte(ar.Name)), hx([]byte(ar.MediaType)),
 				ar.DataSize, hx(data), res(err), cs, ps)
 			return nil
 		}
@@ -261,6 +268,8 @@ func runLex(lines []string) {
 			// lexer may allocate for the garbage it may now be looking at; the lines are informational (the
 			// model's run ends at the first error), a panic is not.
 			if lo != nil && lo.MaxRecordSize > 0 && lo.MaxDecompressedChunkSize > 0 {
+				afterFirstError = true
+				defer func() { afterFirstError = false }()
 				for k := 0; k < 3; k++ {
 					t2, _, err2 := lexer.Next(buf)
 					fmt.Fprintf(out, "after %d %d %s\n", k, opName(t2), res(err2))
